@@ -1,3 +1,4 @@
+import errno
 import logging
 import os
 import stat
@@ -110,6 +111,24 @@ def _create_files(  # noqa: C901, PLR0912, PLR0913
 
         if links is None and isinstance(storage_obj, ObjectStorage):
             links = storage_obj.odb.cache_types
+
+        if links and "symlink" in links:
+            # a symbolic link to a missing source is created without complaint,
+            # so unavailable sources have to be reported before linking
+            present = []
+            for arg in args:
+                _, src_path, dest_path = arg
+                if src_fs.exists(src_path):
+                    present.append(arg)
+                    continue
+                exc = FileNotFoundError(
+                    errno.ENOENT, os.strerror(errno.ENOENT), src_path
+                )
+                onerror(src_path, dest_path, exc)
+            if not present:
+                continue
+            args = present
+            entries, src_paths, dest_paths = zip(*args)
 
         transfer(
             src_fs,
